@@ -201,6 +201,14 @@ class Explorer:
                            'integrate appends', hist2)
                 if row.values.tobytes() != row_bytes:
                     self.v('c02-arg-mutated', 'predict modified its argument', hist2)
+                if not self.wa and isinstance(ret, pd.Series):
+                    # C13: a predicted row is a row produced by the integrator too
+                    alt_sup = integ2.trajectory['alt'].values[0 if frozen is None else len(frozen)]
+                    if ret['VD'] != 0.0:
+                        self.v('c13-vd-nonzero', '2D: predict returned VD = %r' % ret['VD'], hist2)
+                    if ret['alt'] != alt_sup:
+                        self.v('c13-altitude-drift:predict', '2D: predict returned altitude %r, last supplied %r'
+                               % (ret['alt'], alt_sup), hist2)
                 c2 = c
                 model2 = model
             else:
